@@ -12,6 +12,17 @@ func replayMore(rp *ev.Replay) *ev.Failure {
 	switch rp.Test {
 	case "ccase":
 		return replayCCase(rp.Case)
+	case "ccold":
+		var c struct{ K int }
+		if err := json.Unmarshal(rp.Case, &c); err != nil {
+			return ev.Failf(rp.Property+"/replay", "bad case: %v", err)
+		}
+		for i := 0; i < 10; i++ {
+			if f := c15ColdRoundOnce(c.K); f != nil {
+				return f
+			}
+		}
+		return nil
 	case "zcase":
 		var c ZCase
 		if err := json.Unmarshal(rp.Case, &c); err != nil {
